@@ -45,14 +45,19 @@ class new_to_old:
 
 def _pick(rng, version):
     """(type name, seed) for which the value generator yields a valid value in the domain"""
-    for _ in range(200):
+    import json
+    for _ in range(400):
         name = rng.choice(EG.TYPES)
         seed = rng.randrange(10 ** 6)
         try:
             EG.build_value(version, name, seed)
-            return name, seed
         except ValueError:
             continue
+        if version == 'A' and 'u_void2' in json.dumps(message_of_a(name, seed)):
+            # "except through a tag that B changed from Void to a non-nullable type, a direction the guide
+            # does not promise" (statement): u_void2 is that tag
+            continue
+        return name, seed
     raise ValueError('value generator exhausted')
 
 
